@@ -93,8 +93,8 @@ def cases(tier):
     nser = 4 if tier == 'quick' else 5
     for k in range(0, 4):
         yield ('series', k, nser)
-    for sh in range(8):
-        yield ('overlay', (sh, 8))
+    for sh in range(48):
+        yield ('overlay', (sh, 48))
 
 
 def universe(tier):
@@ -303,9 +303,14 @@ def run_overlay(case, ctx):
         miss = np.nan if kind == 'float64' else None
         for k in (1, 2, 3):
             shapes = [(('x', 'y'), ('a', 'b')), (('y', 'x'), ('b', 'a')), (('x',), ('a', 'c')), (('z', 'x'), ('a',))]
-            for shape_seq in itertools.product(shapes[:3] if k == 3 else shapes, repeat=k):
+            seqs = list(itertools.product(shapes[:3] if k == 3 else shapes, repeat=k))
+            if k == 2:
+                # three columns in the first container, so that a NaN-free multi-column 2-D block can precede a block with holes
+                seqs += [((('x',), ('a', 'b', 'c')), s2) for s2 in ((('x',), ('c', 'a')), (('x', 'y'), ('b', 'c')))]
+            for shape_seq in seqs:
                 ncell = [len(r) * len(c) for r, c in shape_seq]
-                for masks in itertools.product(*(itertools.product((0, 1), repeat=n) for n in ncell)):
+                three = len(shape_seq[0][1]) == 3
+                for masks, lay in itertools.product(itertools.product(*(itertools.product((0, 1), repeat=n) for n in ncell)), range(13) if three else (0, -1)):
                     vi += 1
                     if vi % nsh != sh:
                         continue
@@ -326,9 +331,11 @@ def run_overlay(case, ctx):
                             for q, v in enumerate(colv):
                                 a[q] = v
                             data.append(U.frozen(a))
-                        frames.append(U.frame_from_blocks(data, len(rows), index=list(rows), columns=list(cols)))
+                        lays = list(U.layouts(data))
+                        blocks = lays[lay % len(lays) if lay >= 0 else -1][1] if i == 0 else data
+                        frames.append(U.frame_from_blocks(blocks, len(rows), index=list(rows), columns=list(cols)))
                         cell_lists.append(grid)
-                    ctx.state(('overlay', kind, shape_seq, masks))
+                    ctx.state(('overlay', kind, shape_seq, masks, lay))
                     if k >= 2:
                         ctx.nontriv(('overlay', kind, shape_seq, masks))
                     for union in (True, False):
@@ -337,7 +344,7 @@ def run_overlay(case, ctx):
                         cs = [set(c) for _, c in shape_seq]
                         rset = set().union(*rs) if union else set(rs[0]).intersection(*rs[1:])
                         cset = set().union(*cs) if union else set(cs[0]).intersection(*cs[1:])
-                        info = dict(kind=kind, shapes=shape_seq, masks=masks, union=union)
+                        info = dict(kind=kind, shapes=shape_seq, masks=masks, union=union, first_layout=lay)
                         try:
                             res = sf.Frame.from_overlay(frames, union=union)
                         except Exception as e:
